@@ -767,7 +767,27 @@ fn step_observe(events: &[Value], cp_ids: &mut Vec<String>, root: &Path, paths: 
         _ => true,
     };
     let (by_changed, strays) = observe_bystanders(root, paths);
+    // the directory beside the workspace that holds decoy files of the same names (the process's working directory in the
+    // "elsewhere" mode): nothing in it may ever change
+    let mut outside_changed: Vec<String> = Vec::new();
+    if let Some(elsewhere) = root.parent().map(|b| b.join("elsewhere")) {
+        for p in paths {
+            if std::fs::read_to_string(elsewhere.join(p)).ok().as_deref() != Some("content-DECOY\n") {
+                outside_changed.push(format!("elsewhere/{p}"));
+            }
+        }
+        for dir in ["", "d"] {
+            for e in std::fs::read_dir(elsewhere.join(dir)).into_iter().flatten().flatten() {
+                let n = e.file_name().to_string_lossy().to_string();
+                let rel = if dir.is_empty() { n } else { format!("{dir}/{n}") };
+                if rel != "d" && !paths.contains(&rel) {
+                    outside_changed.push(format!("elsewhere/{rel} (new)"));
+                }
+            }
+        }
+    }
     obs.push(json!({
+        "outside_changed": outside_changed,
         "ok": ok, "fs": ckpt_observe(root, paths), "ncp": cp_ids.len(), "kinds": kinds, "auto_before_tool": auto_before_tool,
         "by_changed": by_changed, "strays": strays,
         "auto_files": created.first().map(|c| c["files"].clone()).unwrap_or(Value::Null),
